@@ -353,59 +353,81 @@ def run(tier, seed):
     jobs += [("small", t) for t in small]
     jobs += [("relop", t) for t in gen_terms("relop", chk)]
     jobs += [("rules", t) for t in gen_terms("rules", chk)]
-    jobs += [("random", t) for t in gen_terms("random", chk, nrandom=1500 if quick else 60000, maxdepth=4 if quick else 5, seed=seed + 7)]
+    jobs += [("random", t) for t in gen_terms("random", chk, nrandom=1500 if quick else 40000, maxdepth=4 if quick else 5, seed=seed + 7)]
     jobs += [("ext", t) for t in gen_terms("ext", chk)]
-    jobs += [("extrandom", t) for t in gen_terms("extrandom", chk, nrandom=600 if quick else 30000, maxdepth=3 if quick else 4, seed=seed + 11)]
+    jobs += [("extrandom", t) for t in gen_terms("extrandom", chk, nrandom=600 if quick else 12000, maxdepth=3 if quick else 4, seed=seed + 11)]
     tys = [("float", "float64"), ("float32", "float32"), ("float64", "float64")]
     variants = ["rewrite", "rewrite", "numpy+rewrite", "rewrite", "twice", "cpp+rewrite"]
-    events = []
     nbuild = 0
     shared_ctx, shared_n = None, 0
-    for i, (gen, term) in enumerate(jobs):
-        combos = [(tys[i % 3], variants[i % len(variants)])]
-        if gen in ("rules", "relop") or not quick:
-            combos = [(ty, variants[(i + j) % len(variants)]) for j, ty in enumerate(tys)]
-        for (ty, fmt), variant in combos:
-            # a fresh Context per term, except every 7th term which reuses a shared one
-            if i % 7 == 3:
-                if shared_ctx is None or shared_n > 40:
-                    shared_ctx, shared_n = fa.Context(paths=[fa.algorithms]), 0
-                ctx = shared_ctx
-                shared_n += 1
-            else:
-                ctx = fa.Context(paths=[fa.algorithms])
-            ev = rewrite_event(fa, ctx, term, ty, fmt, variant, len(events), with_infer=False)
-            ev["gen"] = gen
-            if "build_error" in ev or "declined" in ev:
-                nbuild += 1
-                continue
-            events.append(ev)
+    next_id = 0
+    nevents = 0
+    seen_pairs = set()          # digests of (format, outcome, term, result) already validated in an earlier batch
+    changed_src = set()
+    unsupported = 0
+    bad_inf = []
+    sample_done = False
+    BATCH = 10 ** 9 if quick else 4000      # jobs per batch: bounds the memory of a thorough run (events carry whole terms)
     chk.cov["terms"] = len(jobs)
+    import hashlib
+    for lo in range(0, len(jobs), BATCH):
+        events = []
+        for i in range(lo, min(lo + BATCH, len(jobs))):
+            gen, term = jobs[i]
+            combos = [(tys[i % 3], variants[i % len(variants)])]
+            if gen in ("rules", "relop") or not quick:
+                combos = [(ty, variants[(i + j) % len(variants)]) for j, ty in enumerate(tys)]
+            for (ty, fmt), variant in combos:
+                # a fresh Context per term, except every 7th term which reuses a shared one
+                if i % 7 == 3:
+                    if shared_ctx is None or shared_n > 40:
+                        shared_ctx, shared_n = fa.Context(paths=[fa.algorithms]), 0
+                    ctx = shared_ctx
+                    shared_n += 1
+                else:
+                    ctx = fa.Context(paths=[fa.algorithms])
+                ev = rewrite_event(fa, ctx, term, ty, fmt, variant, next_id, with_infer=False)
+                next_id += 1
+                ev["gen"] = gen
+                if "build_error" in ev or "declined" in ev:
+                    nbuild += 1
+                    continue
+                events.append(ev)
+        if not events:
+            continue
+        nevents += len(events)
+        if not sample_done:
+            chk.sample(dict(src=events[len(events) // 2]["src"], t=events[len(events) // 2]["t"], t2=events[len(events) // 2]["t2"]))
+            sample_done = True
+        # identical (format, term, result, outcome) pairs are validated once
+        uniq = {}
+        for e in events:
+            st, st2 = json.dumps(e["t"]), json.dumps(e["t2"])
+            if st != st2:
+                changed_src.add(json.dumps(e["src"]))
+            k = hashlib.sha1(json.dumps([e["fmt"], e["raised"], st, st2]).encode()).digest()
+            if k not in seen_pairs:
+                seen_pairs.add(k)
+                uniq[k] = slim(e)
+        todo = list(uniq.values())
+        if not todo:
+            continue
+        random.Random(seed * 7919 + 13 + lo).shuffle(todo)      # the chunks then cost about the same
+        res = tlc.validate_events("Trace_Rewrite", "Trace.cfg", todo, name="rw%d" % lo, timeout=7200)
+        chk.add_trace("Trace_Rewrite", res, len(events), ntraces=len(todo))
+        byid = {e["id"]: e for e in events}
+        witness = {i: w for i, w in res["notes"] if "unsupported" not in w and not w.startswith('"infer')}
+        unsupported += sum(1 for i, w in res["notes"] if "unsupported" in w)
+        for eid, clauses in res["fails"]:
+            ev = byid[eid]
+            msg = "%s [%s/%s] %s -> %s" % (json.dumps(ev["src"]), ev["ty"], ev["variant"], clauses, ev.get("raised_msg", ""))
+            chk.fail(key_of(ev, clauses), msg[:600], dict(term=ev["src"], ty=ev["ty"], fmt=ev["fmt"], variant=ev["variant"], clauses=clauses,
+                                                          raised=ev["raised"], witness=witness.get(eid, ""), t2=ev["t2"]))
+        bad_inf += [(i, w) for i, w in res["notes"] if w.startswith('"infer')]
     chk.cov["build_errors_skipped"] = nbuild
-    chk.sample(dict(src=events[len(events) // 2]["src"], t=events[len(events) // 2]["t"], t2=events[len(events) // 2]["t2"]))
-    # identical (format, term, result, outcome) pairs are validated once
-    uniq, rep = {}, {}
-    for e in events:
-        k = json.dumps([e["fmt"], e["raised"], e["t"], e["t2"]])
-        if k not in uniq:
-            uniq[k] = slim(e)
-        rep.setdefault(uniq[k]["id"], []).append(e)
-    chk.cov["distinct_rewrite_pairs_validated"] = len(uniq)
-    todo = list(uniq.values())
-    random.Random(seed * 7919 + 13).shuffle(todo)      # the chunks then cost about the same
-    res = tlc.validate_events("Trace_Rewrite", "Trace.cfg", todo, name="rw", timeout=7200)
-    chk.add_trace("Trace_Rewrite", res, len(events), ntraces=len(uniq))
-    byid = {e["id"]: e for e in events}
-    witness = {i: w for i, w in res["notes"] if "unsupported" not in w and not w.startswith('"infer')}
-    unsupported = sum(1 for i, w in res["notes"] if "unsupported" in w)
+    chk.cov["distinct_rewrite_pairs_validated"] = len(seen_pairs)
     chk.cov["events_with_unsupported_kinds"] = unsupported
-    for eid, clauses in res["fails"]:
-        ev = byid[eid]
-        msg = "%s [%s/%s] %s -> %s" % (json.dumps(ev["src"]), ev["ty"], ev["variant"], clauses, ev.get("raised_msg", ""))
-        chk.fail(key_of(ev, clauses), msg[:600], dict(term=ev["src"], ty=ev["ty"], fmt=ev["fmt"], variant=ev["variant"], clauses=clauses,
-                                                      raised=ev["raised"], witness=witness.get(eid, ""), t2=ev["t2"]))
-    # unsound private inferences (not a violation by themselves): feed consumers in a second pass
-    bad_inf = [(i, w) for i, w in res["notes"] if w.startswith('"infer')]
+    # unsound private inferences (not a violation by themselves)
     chk.cov["unsound_inferences_noted"] = len(bad_inf)
     if bad_inf:
         chk.note("unsound private inference on %d (sub-term, property) pairs, e.g. event %s %s" % (len(bad_inf), bad_inf[0][0], bad_inf[0][1][:200]))
@@ -413,7 +435,7 @@ def run(tier, seed):
                         "float clause: symbols range over finite values; a node is exceptional when it yields NaN, overflows, underflows or does arithmetic on an infinity",
                         "kinds evaluated by the spec: " + "arith, min/max, abs, sign, sqrt, square, comparisons, logical ops, select, named and numeric constants; events containing other kinds are counted, not judged",
                         "each term rewritten under a 20 s budget (Timeout counts as 'raised')"]
-    changed = len({json.dumps(e["src"]) for e in events if json.dumps(e["t"]) != json.dumps(e["t2"])})
+    changed = len(changed_src)
     return chk.finish(rule="terms enumerated by TLC from FATerms (small: all terms with <= 2 operator nodes; relop: all comparisons of "
                            "sign-class representatives; rules: rule templates; random: sampled depth <= 5); non-trivial = distinct "
                            "terms that the rewriter actually changed",
